@@ -130,8 +130,13 @@ func VerifC12() {
 			if c := zz.Choice("commit", 3); c > 0 {
 				ct := zz.NondetI64("committed")
 				zz.Assume(zz.And(ct >= 0, ct < 1<<61))
-				w.SetCommitted(map[string]time.Time{insts[c-1]: time.Unix(0, ct)})
+				m := map[string]time.Time{insts[c-1]: time.Unix(0, ct)}
+				w.SetCommitted(m)
 				committed[insts[c-1]] = ct
+				// the syncer keeps recording later merges in its own map; those are not
+				// committed (re-published) yet and must not count for the cleaner
+				m["a"] = time.Unix(0, 1<<61)
+				m["b"] = time.Unix(0, 1<<61)
 			}
 			if zz.Choice("newfile", 2) == 1 {
 				f := mk(3, "a")
